@@ -52,7 +52,7 @@ pub enum Out {
     ResList(Result<Vec<String>, ()>),
 }
 
-pub const ATTRS: &[&str] = &["aaa", "bbb", "abc", "BBB", "true", "True", "TRUE", "abcdefgh", "foo1", "123", "ab", "abcdefghi", "a.b", "", "a\0b"];
+pub const ATTRS: &[&str] = &["aaa", "bbb", "abc", "BBB", "true", "True", "TRUE", "truest", "TRUE1", "xtrue", "abcdefgh", "foo1", "123", "ab", "abcdefghi", "a.b", "", "a\0b"];
 pub const KEYS: &[&str] = &["ca", "nu", "1a", "CA", "aa", "a1", "c", "cal", "h0", "", " a"];
 pub const TKEYS: &[&str] = &["h0", "k0", "H0", "a0", "0h", "ca", "h", "h00", ""];
 pub const TAGS: &[&str] = &["a", "u", "x", "t", "aaa", "bbb", "BBB", "abcdefgh", "1", "abcdefghi", "", "a-b"];
